@@ -275,18 +275,25 @@ def snapshot_delta():
 
 
 def hygiene():
-    """No Axiom/Parameter/Admitted/... in the files of this package."""
+    """No Axiom/Parameter/Admitted/... in the files of this package; Variable / Hypothesis only inside a Section
+    (where they are discharged at End and declare nothing)."""
     bad = []
-    pat = re.compile(r"^\s*(Axiom|Axioms|Parameter|Parameters|Conjecture|Admitted|Variable|Variables|Hypothesis|Hypotheses|"
+    pat = re.compile(r"^\s*(Axiom|Axioms|Parameter|Parameters|Conjecture|Admitted|Admit Obligations|"
                      r"Unset Guard Checking|Unset Positivity Checking|Unset Universe Checking)\b|\badmit\b")
+    ctx = re.compile(r"^\s*(Variable|Variables|Hypothesis|Hypotheses|Context)\b")
     files = [os.path.join(vlib.COQ, "Spec", n) for n in ("ISA.v", "Spec816.v", "Spec816Examples.v")]
     files += [os.path.join(vlib.COQ, "Props", n + ".v") for n in PROOF_FILES]
     for f in files:
         if not os.path.exists(f):
             continue
         src = re.sub(r"\(\*.*?\*\)", "", open(f).read(), flags=re.S)
+        depth = 0
         for k, line in enumerate(src.splitlines()):
-            if pat.search(line):
+            if re.match(r"^\s*Section\s+\w+\s*\.", line):
+                depth += 1
+            elif re.match(r"^\s*End\s+\w+\s*\.", line) and depth > 0:
+                depth -= 1
+            if pat.search(line) or (depth == 0 and ctx.search(line)):
                 bad.append("%s:%d: %s" % (os.path.basename(f), k + 1, line.strip()))
     return bad
 
@@ -318,18 +325,69 @@ def live_replay(ck):
     return True, "", __import__("time").time() - t0
 
 
-def props_obligations(ck):
-    """Static refinement theorem (Props/C01Props.v), restated per run; applicability = snapshot comparison,
-    and, when the model changed (or in the thorough tier), replay of the proofs against the regenerated model."""
-    pv = os.path.join(vlib.COQ, "Props", "C01Props.v")
-    src = open(pv).read()
-    runv = os.path.join(vlib.RUN, "C01_props.v")
-    snap_sha = vlib.sha(vlib.file_sha(SNAPSHOT), vlib.file_sha(os.path.join(SNAPDIR, "GenFields.v")))
-    vlib.write_if_changed(runv, """(* per-run restatement of the static refinement theorem; snapshot %s *)
+STEP_STMT = ("forall s, wf s -> get f_E s = 0%%Z -> no_int s -> Spec816.bcd_defined (abs s) (Machine.mem s) = true -> "
+             "refines_step_d s (%s s)")
+
+TRANSPORT_V = """(* per-run: the static refinement theorem transported to the REGENERATED models of both interpreters *)
 From Coq Require Import ZArith List.
 From Lib Require Import Machine.
+From Spec Require Import Spec816.
+From Snapshot Require Import GenFields.
+From Snapshot Require GenCpu65.
+From Gen Require GenCpu65 GenCpuAlt.
+From Props Require Import C01Base C01AdcRef C01Props.
+From Run Require C01_snapeq C02_eq.
+Theorem C01_step_primary : %(prim)s.
+Proof. rewrite <- C01_snapeq.seq_Step. exact C01_step. Qed.
+Theorem C01_step_alternative : %(alt)s.
+Proof. rewrite <- C02_eq.C02_step_eq. exact C01_step_primary. Qed.
+Print Assumptions C01_step_primary.
+Print Assumptions C01_step_alternative.
+"""
+
+TRANSPORT_LIVE_V = """(* per-run: the replayed refinement theorem (proofs re-checked against the regenerated primary model) transported to the
+   regenerated model of the alternative interpreter *)
+From Coq Require Import ZArith List.
+From Lib Require Import Machine.
+From Spec Require Import Spec816.
+From Gen Require Import GenFields.
+From Gen Require GenCpu65 GenCpuAlt.
+From Run Require Import C01L_C01Base C01L_C01AdcRef C01L_C01Props.
+From Run Require C02_eq.
+Theorem C01_step_primary : %(prim)s.
+Proof. exact C01_step. Qed.
+Theorem C01_step_alternative : %(alt)s.
+Proof. rewrite <- C02_eq.C02_step_eq. exact C01_step_primary. Qed.
+Print Assumptions C01_step_primary.
+Print Assumptions C01_step_alternative.
+"""
+
+
+def _first_failing(out):
+    m = re.search(r"\(in proof (\w+)\)", out)
+    if m:
+        return m.group(1)
+    m = re.search(r'File "[^"]*", line (\d+)', out)
+    return ("line " + m.group(1)) if m else out[-300:]
+
+
+def props_obligations(ck):
+    """Static refinement theorem (Props/C01Props.v), restated per run, and its transport to the regenerated models:
+    Snapshot.GenCpu65.f = Gen.GenCpu65.f function by function (kernel-checked, checks/snapeq.py), then
+    Gen.GenCpu65.Step = Gen.GenCpuAlt.Step (C02's theorem).  When a function differs from the snapshot (or in the
+    thorough tier) the proof files themselves are replayed against the regenerated model."""
+    from checks import snapeq, cpueq
+    pv = os.path.join(vlib.COQ, "Props", "C01Props.v")
+    src = open(pv).read()
+    full = "\nTheorem C01_step :" in src
+    runv = os.path.join(vlib.RUN, "C01_props.v")
+    snap_sha = vlib.sha(vlib.file_sha(SNAPSHOT), vlib.file_sha(os.path.join(SNAPDIR, "GenFields.v")))
+    vlib.write_if_changed(runv, """(* per-run restatement of the static refinement theorems; snapshot %s *)
+From Coq Require Import ZArith List.
+From Lib Require Import Machine.
+From Spec Require Import Spec816.
 From Snapshot Require Import GenFields GenCpu65.
-From Props Require Import C01Base C01Props.
+From Props Require Import C01Base C01AdcRef C01Props.
 Set Printing Depth 2000.
 Definition n_proved := Eval vm_compute in List.length proved_opcodes.
 Print n_proved.
@@ -337,11 +395,20 @@ Definition the_proved := Eval vm_compute in proved_opcodes.
 Print the_proved.
 Theorem C01_step_partial_run :
   forall op, In op proved_opcodes ->
-  forall s, wf s -> get f_E s = 0%%Z -> no_int s -> opcode_at s = op -> refines_step s (Step s).
+  forall s, wf s -> get f_E s = 0%%Z -> no_int s -> opcode_at s = op ->
+            Spec816.bcd_defined (abs s) (Machine.mem s) = true -> refines_step_d s (Step s).
 Proof. exact C01_step_partial. Qed.
 Print Assumptions C01_step_partial_run.
+%s
 Print Assumptions C01_hypotheses_satisfiable.
-""" % snap_sha[:16])
+""" % (snap_sha[:16], ("""Theorem C01_step_run : %s.
+Proof. exact C01_step. Qed.
+Theorem C01_run_run : forall n s, wf s -> native_run n s ->
+  exists s', run_model n s = Some s' /\\ wf s' /\\ spec_trace n (abs s) (Machine.mem s) (abs s') (Machine.mem s').
+Proof. exact C01_run. Qed.
+Example decimal_premises_hold := C01_decimal_premises.
+Print Assumptions C01_step_run.
+Print Assumptions C01_run_run.""" % (STEP_STMT % "Step")) if full else ""))
     fresh = vlib.static_vo_fresh(runv)
     rc, out, dt, cached = vlib.coqc(runv, timeout=900)
     ok = rc == 0 and fresh
@@ -349,45 +416,84 @@ Print Assumptions C01_hypotheses_satisfiable.
     n = int(m.group(1)) if m else 0
     m2 = re.search(r"the_proved =\s*(.*?)\s*: list", out, re.S)
     plist = [int(x) for x in re.findall(r"\d+", m2.group(1))] if m2 else []
+    why = out if rc != 0 else ("static library stale: run ./check --setup" if not fresh else "")
     ck.oblige("Theorem C01_step_partial: for the %d opcodes of proved_opcodes, forall s, wf s -> E = 0 -> no pending interrupt -> "
-              "the generated model's Step refines Spec816.step through abs (registers, flags, PC, memory, wf of the result)" % n,
-              ok, out if rc != 0 else ("static library stale: run ./check --setup" if not fresh else ""))
+              "bcd_defined -> the generated model's Step does not panic and refines Spec816.step through abs (registers incl. the hidden "
+              "B, flags (V free after decimal ADC/SBC), PC, every memory byte, wf of the result)" % n, ok, why)
+    if full:
+        ck.oblige("Theorem C01_step: the same for EVERY state (all 256 opcodes: proved_opcodes = 0..255, Lemma opcode_in)", ok and n == 256, why)
+        ck.oblige("Theorem C01_run: along n steps (any n) of the model from any wf state whose visited states have E = 0, no pending "
+                  "interrupt and defined BCD operands, no step panics, wf is preserved and every step is one the specification allows "
+                  "from the model's own previous state (spec_trace)", ok, why)
     if rc == 0:
         ck.assumptions += vlib.parse_assumptions(out)
     ck.cov["proved_opcodes"] = n
     ck.cov["proved_opcode_list"] = ["%02x" % x for x in plist]
     ck.cov["proved_fraction"] = "%d/256" % n
-    ck.cov["proved_note"] = ("opcodes outside proved_opcodes (%d of 256) are covered by the differential run only" % (256 - n))
+    ck.cov["proved_note"] = ("all 256 opcodes are proved; the differential run is the tie / falsifier" if n == 256 else
+                             "opcodes outside proved_opcodes (%d of 256) are covered by the differential run only" % (256 - n))
     used = set()
-    for n in PROOF_FILES:
-        fsrc = open(os.path.join(vlib.COQ, "Props", n + ".v")).read()
+    for pf in PROOF_FILES:
+        fsrc = open(os.path.join(vlib.COQ, "Props", pf + ".v")).read()
         for dline in re.findall(r"snapshot_dep:\s*([A-Za-z_0-9 ,\n]+?)(?:\*\)|\n\s*\n)", fsrc):
             used |= {x.strip() for x in dline.replace("\n", " ").split(",") if re.fullmatch(r"[A-Za-z_0-9]+", x.strip())}
     delta = snapshot_delta()
     if delta is None:
         ck.oblige("snapshot of the generated primary model present (coq/Snapshot/GenCpu65.v)", False, "missing")
         return
-    changed_used = sorted(set(delta) & used) if used else delta
     ck.cov["snapshot_functions_changed"] = delta
-    ck.cov["snapshot_functions_changed_relevant"] = changed_used
-    need_live = bool(changed_used) or ck.tier == "thorough"
-    if not changed_used:
-        ck.oblige("proof target = regenerated model: the %d functions the theorem depends on are textually identical in "
-                  "Snapshot/GenCpu65.v and in the regenerated Gen/GenCpu65.v" % len(used), True)
+    # --- kernel-checked equality snapshot = regenerated model, function by function
+    gen65 = os.path.join(vlib.GEN, "GenCpu65.v")
+    txt, info = snapeq.generate(SNAPSHOT, gen65)
+    sv = os.path.join(vlib.RUN, "C01_snapeq.v")
+    vlib.write_if_changed(sv, txt)
+    rcs, outs, dts, _ = vlib.coqc(sv, timeout=1800)
+    snap_ok = rcs == 0 and not info["only_in_snapshot"]
+    ck.cov["snapshot_equalities"] = len(info["lemmas"])
+    # --- C02's equality of the two regenerated models (the same file the C02 check produces)
+    txt2, info2 = cpueq.generate(gen65, os.path.join(vlib.GEN, "GenCpuAlt.v"))
+    ev = os.path.join(vlib.RUN, "C02_eq.v")
+    vlib.write_if_changed(ev, txt2)
+    rce, oute, dte, _ = vlib.coqc(ev, timeout=1800)
+    stm = {"prim": STEP_STMT % "Gen.GenCpu65.Step", "alt": STEP_STMT % "Gen.GenCpuAlt.Step"}
+    need_live = (not snap_ok) or ck.tier == "thorough"
+    if snap_ok:
+        ck.oblige("proof target = regenerated model: Snapshot.GenCpu65.f = Gen.GenCpu65.f for all %d functions and tables of the model "
+                  "regenerated from the Go sources on this run (one kernel-checked lemma per function, Run/C01_snapeq.v)" % len(info["lemmas"]), True)
+    okl = None
     if need_live:
         okl, detail, secs = live_replay(ck)
         ck.cov["live_replay_s"] = round(secs, 1)
-        if changed_used:
-            ck.oblige("proof target = regenerated model: functions %s differ from the snapshot; the proof files were replayed against the "
-                      "regenerated model instead" % ", ".join(changed_used), okl,
+        if not snap_ok:
+            ck.oblige("proof target = regenerated model: %s differs from the snapshot; the proof files were replayed against the "
+                      "regenerated model instead" % _first_failing(outs), okl,
                       "the refinement theorem does not apply to the changed functions: " + detail)
         else:
             ck.oblige("proof files replay against the regenerated model (From Gen)", okl, detail)
+    if not full:
+        return
+    tv = os.path.join(vlib.RUN, "C01_transport.v")
+    if snap_ok:
+        vlib.write_if_changed(tv, TRANSPORT_V % stm)
+    elif okl:
+        vlib.write_if_changed(tv, TRANSPORT_LIVE_V % stm)
+    else:
+        return
+    rct, outt, dtt, _ = vlib.coqc(tv, timeout=900)
+    ck.oblige("Theorem C01_step_primary: C01_step for the REGENERATED model of emulator/cpu65c816 (Gen.GenCpu65.Step)", rct == 0, outt)
+    ck.oblige("Theorem C01_step_alternative: C01_step for the REGENERATED model of emulator/cpualt (Gen.GenCpuAlt.Step), through "
+              "C02_step_eq : GenCpu65.Step = GenCpuAlt.Step", rct == 0 and rce == 0,
+              outt if rce == 0 else "C02's equality of the two regenerated models no longer checks: " + _first_failing(oute))
+    if rct == 0:
+        ck.assumptions += vlib.parse_assumptions(outt)
+    ck.sample({"theorem": "C01_step_alternative : " + stm["alt"]})
 
 
 def run_c01(ck):
     ck.trusted = [
         "Coq 8.16.1 kernel incl. its bytecode VM (vm_compute); no native_compute; standard library only",
+        "axiom: Coq.Logic.FunctionalExtensionality.functional_extensionality_dep (standard library), only in C01_step_alternative, "
+        "inherited from C02_step_eq (equality of the bus-helper routines stated as equality of functions)",
         "Spec/ISA.v and Spec/Spec816.v: written from the WDC data sheet from memory (no reference emulator offline); exercised by "
         "the examples of Spec/Spec816Examples.v and cross-examined against two implementations on every run",
         "extraction (ExtrOcamlBasic only, Z/N/positive/string stay extracted inductives, no Extract Constant), ocamlopt, ocaml/specdriver.ml "
@@ -506,13 +612,15 @@ def run_c01(ck):
                "C01_step: forall s m, wf s -> E s = 0 -> no_pending_interrupt s -> mem_ok m -> bcd_defined (abs s) m -> "
                "match Step s with Panic => False | Ok _ s' => abs s' =[V if decimal] Spec816.step_state (abs s) m /\\ "
                "forall a, mem s' a = Spec816.step_mem (abs s) m a end",
-               "proved": "C01_step_partial: the same for the opcodes of proved_opcodes (see proved_fraction); others: differential run only"})
+               "proved": "C01_step (all 256 opcodes when proved_fraction = 256/256), C01_run, and their transport to the regenerated "
+                         "models of both interpreters (C01_step_primary, C01_step_alternative)"})
     broken = [o["name"] for o in ck.obligations if not o["discharged"]]
     if broken and not ck.violations:
         ck.violation("obligation", "broken-theorem", "differential run found no failing input; broken: " + "; ".join(broken),
                      {"broken_obligations": broken})
-    bad = vlib.foreign_assumptions(ck.assumptions)
-    ck.oblige("Print Assumptions: closed under the global context", not bad, "unexpected: %s" % bad)
+    bad = [a for a in vlib.foreign_assumptions(ck.assumptions) if a.split(".")[-1] != "functional_extensionality_dep"]
+    ck.oblige("Print Assumptions: C01_step / C01_run / C01_step_primary closed under the global context; C01_step_alternative depends on "
+              "functional_extensionality_dep only (standard library; through C02_step_eq)", not bad, "unexpected: %s" % bad)
     hy = hygiene()
     ck.oblige("no Axiom/Parameter/Admitted/admit/guard switches in Spec/ISA.v, Spec816*.v, Props/C01*.v", not hy, "; ".join(hy))
 
